@@ -141,8 +141,14 @@ fn create_next_state<C: ContentAddrStore>(
         }
 
         // fees
+        // `Transaction::weight` adds the covenant weights up with a plain `+`, and the weight of a single
+        // covenant can already saturate at u128::MAX (a handful of nested loops). Hand the weights over so that
+        // their plain sum is the saturating sum and cannot overflow.
+        let weight_headroom = std::cell::Cell::new(u128::MAX);
         let min_fee = tx.base_fee(next_state.fee_multiplier, 0, |c| {
-            covenant_weight_from_bytes(c)
+            let weight = covenant_weight_from_bytes(c).min(weight_headroom.get());
+            weight_headroom.set(weight_headroom.get() - weight);
+            weight
         });
         if tx.fee < min_fee {
             return Err(StateError::InsufficientFees(min_fee));
